@@ -128,6 +128,13 @@ class Check:
                     json.dump({'property': self.pid, 'key': key, 'what': v['what'], 'case': v['case']},
                               f, indent=1, default=str)
                 print('VIOLATION property=%s replay=%s  # %s' % (self.pid, path, v['what'][:200]))
+            groups = {}
+            for v in self.violations:
+                c = v['case'] if isinstance(v['case'], dict) else {}
+                g = '%s %s' % (c.get('cfg', ''), c.get('selector', c.get('group', v['key'][:60])))
+                groups.setdefault(g, []).append(v)
+            for g, vs in sorted(groups.items(), key=lambda kv: -len(kv[1]))[:60]:
+                print('  group %-50s %6d  e.g. %s' % (g, len(vs), vs[0]['what'][:150]))
             print('%s: %d violating cases (%d distinct keys) in %.1fs' %
                   (self.pid, len(self.violations), len(seen), wall))
             return 1
